@@ -77,6 +77,26 @@ CLAIMED = {
               'ddiff %rS printing path is covered in C06; two defects found and fixed (bisection, 2038 truncation)'),
         technique='CBMC bounded model checking of lib/leaps.c, lib/tzraw.c offsets and dt_dtadd(tai) over the real table',
         design='3/C14'),
+    'C12': dict(
+        text=('Bounded model checking of lib/tzraw.c lookups: for fully symbolic transition tables of 0..8 entries '
+              '(arbitrary instants, types, offsets) and any instant from the first transition on, zif_find_zrng '
+              'returns the adjacent entries and zif_local_time adds the offset of the last transition <= t '
+              '(linear-scan oracle); zif_utc_time returns a valid preimage whenever one exists; a concrete '
+              '300-entry table covers transition numbers > 255. Non-termination is detected through failing '
+              'unwinding assertions confirmed by a hanging replay.'),
+        note=('tables as loaded (sorted, type index < nty); loader and real files: C19; local->UTC for tables with '
+              'transitions more than 64h apart; three defects found and fixed'),
+        technique='CBMC bounded model checking of the zone lookup over symbolic transition tables',
+        design='3/C12'),
+    'C13': dict(
+        text=('One inductive step per state-carrying component, from an arbitrary pre-state satisfying an explicit '
+              'representation invariant: zone range cache (cold / range of any earlier instant / before-first), '
+              'strops character table + cycle counter (all 256 entries symbolic), base date-time singleton under an '
+              'arbitrary clock. Result == reference and invariant re-established, hence histories of any length.'),
+        note=('composition argument to whole tool runs is stated, not solver-checked; output buffer / duration '
+              'stack / alists not yet covered; OS state outside'),
+        technique='CBMC single inductive step from arbitrary invariant-satisfying state',
+        design='3/C13'),
 }
 
 NA = {}
